@@ -23,6 +23,8 @@ NOTES = {
     "C18/5": "caught by C15's R15.1 (the Result of finish() is dropped), to which C18 delegates error propagation",
     "C20/2": "same change as C04/3 (unescaped `.`): a C04 language obligation, caught by C04",
     "C20/5": "a quoted_string defect seeded through C20: caught by C03's R3.1c",
+    "C13/5": "neutralised by the repair 101eae2: every query dataset is now refused at the top of ExecState::new, so removing the later FROM NAMED test changes nothing (the demonstration passes with the patch on the repaired tree)",
+    "C13/12": "NOT detected (round 3, reverse of 1022e6e): the value semantics of `<` on NaN; no structural rule of mine decides it (C13 ND)",
     "C04/7": "NOT detected (round 3, reverse of b99fdd2): correctness of the cycle walk of build_labelled is a graph-algorithm property no structural rule of mine reaches (C04 ND)",
     "C04/8": "round 3, reverse of 5b87013: the missing nesting bound is seen from C16's side (the depth guard of the Prettifier cycle is lost)",
     "C07/9": "round 3, reverse of 49a072a: the root cause is in the default Term::cmp, caught by C02's R2.4c",
@@ -40,7 +42,7 @@ for d in sorted(glob.glob(os.path.join(V, "seeded", "C*", "[0-9]*"))):
         title = title[:147] + "..."
     det = r.get("detected_by") or []
     own = r.get("checks", {}).get(pid, {}).get("new_violations") or []
-    neutral = tag in ("C10/3", "C16/3")
+    neutral = tag in ("C10/3", "C16/3", "C13/5")
     if neutral:
         n_neutral += 1
         verdict = "property holds (neutralised)"
@@ -80,6 +82,13 @@ detected (listed ND clauses), %d neutralised by a repair (the property holds on 
 %s
 """ % (len(rows), n_det, n_own, n_det - n_own, n_miss, n_neutral, "\n".join(rows))
 
+BNOTES = {
+    "B01/9": "kept: the range construction of quads_matching moved into a generic helper function (`prefix_range` built with array::from_fn); the role "
+             "analysis of R1.2 is intra-procedural and fails closed - the residual risk documented in §10",
+    "B12/10": "kept: an audited indexing site moved from a closure into its enclosing function (`for` loop instead of filter_map): a new audit key, by design",
+    "B09/7": "kept, and not a false alarm about the code: a *known finding* (the unwrap of the resolver's Result) moved into a helper function and is "
+             "reported under its new location - known findings are suppressed by exact key only",
+}
 brow = []
 fa = 0
 for tag in sorted(ben):
@@ -91,14 +100,17 @@ for tag in sorted(ben):
     alarms = r.get("false_alarms") or {}
     if alarms or r.get("error"):
         fa += 1
-    brow.append("| %s | %s | %s | %s |" % (tag, kind, files, "silent" if not alarms and not r.get("error") else "**ALARM** %s" % json.dumps(alarms or r.get("error"))[:120]))
+    brow.append("| %s | %s | %s | %s |" % (tag, kind, files, "silent" if not alarms and not r.get("error") else "**ALARM** %s%s" % (
+        json.dumps(alarms or r.get("error"))[:120], (" - " + BNOTES[tag]) if tag in BNOTES else "")))
 sec12 = """## 12. Behaviour-preserving variants (false-alarm self-test)
 
 %d refactorings of the anchor code of 19 properties, written by sub-agents with the instruction to keep
 behaviour, names and signatures and to make the edits a maintainer makes all the time; each keeps the
 repository's suite green (recorded in its `meta.json`).  `tools/run_benign.py` applies each one to a scratch
 worktree of the repaired tree and runs **all** registered checks: a new violation key is a false alarm.
-Current result: %d of %d raise an alarm.  Thirteen variants raised one at some point; each was corrected by generalising
+The first batch (95) consists of free refactorings of the anchor files; the second (45, k = 6..10) was written inside the functions
+the hunt-round rules look at, with shape-changing edits (§6).
+Current result: %d of %d raise an alarm (explained in the table).  Of the first batch, thirteen variants raised one at some point; each was corrected by generalising
 the idiom the rule recognises, never by loosening the rule: a kind predicate spelled `==` instead of `matches!` (C12,
 now decided per kind by `kind_predicate`); `?` replaced by `match .. Ok(true)/Ok(false)/Err` (C01 R1.7, C09
 `Namespace::get`, C18 pairing — `try_success_edge` and the path enumerator now treat an explicit `Err(e) => return Err(..)`
